@@ -389,7 +389,9 @@ func newWorld(r *vkit.Run, sink querylog.Interface, yield func()) (*world, error
 			pw.Auth = &agd.AuthSettings{PasswordHash: pwAuth("secret"), Enabled: true, DoHAuthOnly: true}
 			hum := mkDevice(ps.DevHum)
 			hum.HumanIDLower = "myphone"
-			db.Add(mkProfile(ps.ID, ql, ip, modes[i]), mkDevice(ps.DevSNI), lnk, ded, pw, hum)
+			prof := mkProfile(ps.ID, ql, ip, modes[i])
+			prof.BlockFirefoxCanary, prof.BlockPrivateRelay, prof.BlockChromePrefetch = blocksSpecial(i), blocksSpecial(i), blocksSpecial(i)
+			db.Add(prof, mkDevice(ps.DevSNI), lnk, ded, pw, hum)
 			w.profs = append(w.profs, ps)
 			i++
 		}
@@ -422,7 +424,7 @@ func newWorld(r *vkit.Run, sink querylog.Interface, yield func()) (*world, error
 
 	st, err := stack.New(&stack.Options{
 		FilterStorage: w.storage, ProfileDB: db, GeoIP: w.geo, AccessManager: accMgr{}, RateLimit: globalRL{},
-		Upstream: upstream, QueryLog: sink, ServerGroups: []*agd.ServerGroup{w.g1, w.g2},
+		Upstream: upstream, QueryLog: sink, ServerGroups: []*agd.ServerGroup{w.g1, w.g2}, DNSCheck: dnsCheck{}, HashMatcher: hashMatcher{},
 		FilteringGroups: map[agd.FilteringGroupID]*agd.FilteringGroup{"fg": fg}, Yield: yield,
 	})
 	if err != nil {
@@ -468,6 +470,12 @@ type caseSpec struct {
 	Drop       string    `json:"expect_drop,omitempty"`
 	V          verdict   `json:"scripted_verdict"`
 	UX         string    `json:"upstream,omitempty"`
+	// Special is the kind of specially-treated name, if any; Early means that
+	// the query is answered before the main middleware (no entry / bill is
+	// required); Fixed means that the name is not unique to the request.
+	Special string `json:"special_name_kind,omitempty"`
+	Early   bool   `json:"answered_before_main_middleware,omitempty"`
+	Fixed   bool   `json:"-"`
 
 	remote, local netip.AddrPort
 	srv           *agd.Server
@@ -771,7 +779,11 @@ func (c *caseSpec) classKey() string {
 	if c.Prof != nil {
 		ql, ip = fmt.Sprint(b2i(c.Prof.QL)), fmt.Sprint(b2i(c.Prof.IPLog))
 	}
-	return fmt.Sprintf("p1|%s|%s|ql%s|ip%s|%s|%s", c.Phase, c.AC, ql, ip, c.V.Req, c.V.Resp)
+	k := fmt.Sprintf("p1|%s|%s|ql%s|ip%s|%s|%s", c.Phase, c.AC, ql, ip, c.V.Req, c.V.Resp)
+	if c.Special != "" {
+		k += "|" + c.Special
+	}
+	return k
 }
 
 func (c *caseSpec) nontrivial() bool {
@@ -866,8 +878,11 @@ type judged struct {
 
 func (w *world) run(c *caseSpec, rng *rand.Rand) *judged {
 	r := w.r
-	hs := w.storage.put(c.Name, c.V)
-	defer w.storage.del(c.Name)
+	var hs *hostScript
+	if !c.Fixed {
+		hs = w.storage.put(c.Name, c.V)
+		defer w.storage.del(c.Name)
+	}
 	rq := c.request(rng)
 	t0 := time.Now()
 	out := w.st.Serve(rq)
@@ -876,9 +891,12 @@ func (w *world) run(c *caseSpec, rng *rand.Rand) *judged {
 
 	tr := out.Trace
 	logs, bills := tr.QueryLog, tr.Bill
-	hs.mu.Lock()
-	gReq, gResp := hs.gaveReq, hs.gaveResp
-	hs.mu.Unlock()
+	gReq, gResp := given{Kind: kNone}, given{Kind: kNone}
+	if hs != nil {
+		hs.mu.Lock()
+		gReq, gResp = hs.gaveReq, hs.gaveResp
+		hs.mu.Unlock()
+	}
 
 	r.Eval(c.classKey(), c.nontrivial())
 	r.Bucket("p1.cases", 1)
@@ -957,7 +975,15 @@ func (w *world) run(c *caseSpec, rng *rand.Rand) *judged {
 	// Attributed and answered.
 	r.Bucket("p1.attributed_served", 1)
 	wantCtry, wantASN := w.geoOf(c.remote.Addr())
+	if c.Special != "" {
+		r.Bucket("p1.special."+c.Special, 1)
+		if c.Early {
+			r.Bucket("p1.special_early."+c.Special, 1)
+		}
+	}
 	switch {
+	case len(bills) == 0 && c.Early:
+		r.Bucket("p1.early_not_billed", 1)
 	case len(bills) == 0:
 		r.Violation("missing-bill:"+c.AC, "an attributed, answered query produced no billing record", wit(nil))
 	case len(bills) > 1:
@@ -993,6 +1019,8 @@ func (w *world) run(c *caseSpec, rng *rand.Rand) *judged {
 		return res
 	}
 	switch {
+	case len(logs) == 0 && c.Early:
+		r.Bucket("p1.early_not_logged", 1)
 	case len(logs) == 0:
 		r.Violation("missing-entry:"+c.AC, "an answered query of a profile with query logging enabled produced no entry", wit(nil))
 	case len(logs) > 1:
@@ -1022,6 +1050,9 @@ func (w *world) run(c *caseSpec, rng *rand.Rand) *judged {
 		}
 		if !strings.EqualFold(e.DomainFQDN, c.Name) {
 			bad("name", c.Name, e.DomainFQDN)
+		}
+		if c.Special != "" {
+			r.Bucket("p1.special_entries_checked."+c.Special, 1)
 		}
 		if e.RequestType != c.QType {
 			bad("qtype", c.QType, e.RequestType)
@@ -1321,6 +1352,19 @@ func part1Sequential(t *testing.T, r *vkit.Run) {
 				}
 			}
 		}
+		// Specially-treated names, by every eligible attribution class.
+		for _, kind := range specialKinds {
+			for ai, ac := range specialEligible {
+				for pi, p := range w.profs {
+					v := [][2]string{{kNone, kNone}, {kAllowed, kNone}, {kBlocked, kNone}, {kNone, kBlocked}, {kNone, kAllowed}, {kModReq, kNone}}[(ai+pi+rep)%6]
+					rng := r.Rand("seq", idx)
+					c := w.build(rng, "seq", idx, ac, p, v[0], v[1], qtypes[rng.IntN(len(qtypes))], "")
+					w.specialize(c, rng, kind)
+					w.run(c, rng)
+					idx++
+				}
+			}
+		}
 	}
 	r.Extra("sequential_cases", idx)
 }
@@ -1341,7 +1385,15 @@ func randomCase(w *world, r *vkit.Run, phase string, idx int) (*caseSpec, *rand.
 	p := w.profs[rng.IntN(len(w.profs))]
 	rk := reqKinds[rng.IntN(len(reqKinds))]
 	pk := respKinds[rng.IntN(len(respKinds))]
-	return w.build(rng, phase, idx, ac, p, rk, pk, qtypes[rng.IntN(len(qtypes))], uxs[rng.IntN(len(uxs))]), rng
+	c := w.build(rng, phase, idx, ac, p, rk, pk, qtypes[rng.IntN(len(qtypes))], uxs[rng.IntN(len(uxs))])
+	if isEligible(ac) && rng.IntN(4) == 0 {
+		kind := specialKinds[rng.IntN(len(specialKinds))]
+		if rng.IntN(2) == 0 {
+			kind = androidKinds[rng.IntN(len(androidKinds))]
+		}
+		w.specialize(c, rng, kind)
+	}
+	return c, rng
 }
 
 const workers = 32
@@ -1664,7 +1716,9 @@ func TestCheck(t *testing.T) {
 		"the restart and at least one flag off.")
 	r.Assume("The scripted filter storage, access manager, profile access, rate limiters, GeoIP and profile database are harness fakes; " +
 		"everything between the handler boundary and those interfaces is the repository's code (dnssvc.NewHandlers).")
-	r.Assume("Request names avoid the special domains handled before the main middleware (DDR, canary, safe-browsing TXT, CHAOS debug).")
+	r.Assume("Ordinary request names avoid the special domains; a separate class of cases uses the names that the initial / pre-service / " +
+		"pre-upstream middlewares treat specially (Android metric names, resolver.arpa, canary, private relay, prefetch, dnscheck, hash-prefix TXT); " +
+		"for those answered before the main middleware no entry / bill is demanded, all other rules apply.  CHAOS-class debug requests are not used.")
 	r.Assume("ResponseCountry and the DNSSEC flag are only checked for requests whose verdict left the upstream response untouched.")
 	r.Assume("O_APPEND writes of one buffer to a regular file on the scratch file system are atomic (Linux).")
 
@@ -1766,6 +1820,16 @@ func TestCheck(t *testing.T) {
 	r.Require("p4.backend_incremental_syncs", 2)
 	r.Require("p3.svc-later-of-several", 60)
 	r.Require("p3.lines_checked", 400)
+	// Specially-treated names: every kind must have been requested by attributed
+	// clients, and entries of the Android metric names (which always pass the
+	// main middleware under a replacement name) must have been compared.
+	for _, k := range specialKinds {
+		r.Require("p1.special."+k, 30)
+	}
+	for _, k := range androidKinds {
+		r.Require("p1.special_entries_checked."+k, 25)
+	}
+	r.Require("p1.early_not_logged", 50)
 	// Extended response codes (upper bits in the OPT record) must have reached
 	// clients of logged requests.
 	r.Require("p1.ext_rcode_entries_checked", 150)
